@@ -30,6 +30,11 @@ def plan(tier, seed):
     for kind in ("plain", "prio", "preemptive"):
         for cap in ((1, 2) if quick else (1, 2, 3)):
             cfgs.append(dict(driver="B", kind=kind, cap=cap, depth=d if kind == "plain" else d - 1))
+    # priorities are numbers, not necessarily whole ones
+    cfgs.append(dict(driver="B", kind="preemptive", cap=1, depth=d - 1, prios=[0.25, 0.75]))
+    cfgs.append(dict(driver="B", kind="prio", cap=1, depth=d - 1, prios=[1.5, 1.25]))
+    # four customers over three priority levels (a newcomer that outranks two waiting requests)
+    cfgs.append(dict(driver="A", kind="prio", cap=1, n=4, rich=0, prios3=1))
     for kind in ("plain", "prio", "preemptive"):
         for cap in (1, 2):
             cfgs.append(dict(driver="A", kind=kind, cap=cap, n=3 if quick else (4 if kind == "plain" else 3), rich=0 if quick else 1,
@@ -38,13 +43,13 @@ def plan(tier, seed):
             "bound": "B: histories of <=%d operations (priority/preemptive %d) on 3 puppets, capacity 1..%d; A: %d customer scripts" % (d, d - 1, 2 if quick else 3, 3)}
 
 
-def ops_menu(kind):
+def ops_menu(kind, prios=(0, 1)):
     m = [("tick",), ("flush",)]
     for p in range(NP):
         if kind == "plain":
             m.append(("req", p, 0, False))
         else:
-            for prio in (0, 1):
+            for prio in prios:
                 for pre in ((True, False) if kind == "preemptive" else (False,)):
                     m.append(("req", p, prio, pre))
         m += [("rel", p), ("cancel", p), ("exit", p), ("relother", p), ("rel2", p), ("relq", p)]
@@ -174,7 +179,7 @@ def exec_puppets(ch, cfg, res):
                 res.bad("C06.preempt", tag + ":wrong-Preempted-cause", "victim %d: Preempted=%s usage_since=%r resource-ok=%s grants %s" % (pid, isp, since, isres, g))
                 return False
         return True
-    menu = ops_menu(kind)
+    menu = ops_menu(kind, cfg.get("prios", (0, 1)))
     n = 0
     res.ev("C06.noraise")
     try:
@@ -256,10 +261,15 @@ def exec_scripts(ch, cfg):
     tag = "%s(cap=%d,with-blocks)" % (r.__class__.__name__, cap)
     arrivals = [0, 1, 2] if kind == "plain" or cfg.get("rich") else [0, 1]
     patiences = [0, 1, None] if kind != "preemptive" or cfg.get("rich") else [None]
+    if cfg.get("prios3"):
+        patiences = [None]
     specs = []
     for i in range(n):
         a = arrivals[ch.choose(len(arrivals), lambda c, i=i: "customer %d arrives at %d" % (i, arrivals[c]), free=True)]
-        prio = ch.choose(2, lambda c, i=i: "customer %d priority %d" % (i, c), free=True) if kind != "plain" else 0
+        if cfg.get("prios3"):
+            prio = ch.choose(3, lambda c, i=i: "customer %d priority %d" % (i, c), free=True)
+        else:
+            prio = ch.choose(2, lambda c, i=i: "customer %d priority %d" % (i, c), free=True) if kind != "plain" else 0
         pre = bool(ch.choose(2, lambda c, i=i: "customer %d preempt=%s" % (i, bool(c)), free=True)) if kind == "preemptive" else False
         pat = patiences[ch.choose(len(patiences), lambda c, i=i: "customer %d patience %s" % (i, patiences[c]), free=True)]
         hold = 1 + ch.choose(2, lambda c, i=i: "customer %d holds for %d" % (i, c + 1), free=True)
@@ -307,7 +317,7 @@ def exec_scripts(ch, cfg):
         done.append(i)
     for i in range(n):
         procs.append(env.process(customer(i, specs[i])))
-    kc = ch.choose(1 + 2 * min(n, 2), lambda c: "no outside interrupt" if c == 0 else "customer %d is interrupted from outside at t=%d" % ((c - 1) // 2, 1 + (c - 1) % 2), free=True)
+    kc = 0 if cfg.get("prios3") else ch.choose(1 + 2 * min(n, 2), lambda c: "no outside interrupt" if c == 0 else "customer %d is interrupted from outside at t=%d" % ((c - 1) // 2, 1 + (c - 1) % 2), free=True)
     if kc:
         def killer(v, t):
             yield env.timeout(t)
